@@ -32,7 +32,7 @@ from pathlib import Path
 from . import env
 
 VERIF = env.VERIF
-MAX_VIOLATIONS_PER_SHARD = 25
+MAX_STORED_PER_SIGNATURE = 3
 
 
 # ---------------------------------------------------------------------------------------------
@@ -134,6 +134,7 @@ class Ctx:
         self.samples: list = []
         self.violations: list = []
         self.n_violations = 0
+        self.sig_counts: dict = {}
         self.current_case = None
         self.replaying = False
 
@@ -170,9 +171,11 @@ class Ctx:
     def violation(self, rule: str, detail=None, key=None, case=None) -> None:
         self.n_violations += 1
         self.counters["violation:" + rule] = self.counters.get("violation:" + rule, 0) + 1
-        if len(self.violations) < MAX_VIOLATIONS_PER_SHARD or (
-            key is not None and not any(v.get("key") == key for v in self.violations)
-        ):
+        sig = (rule, key)
+        n = self.sig_counts[sig] = self.sig_counts.get(sig, 0) + 1
+        # the cap is per (rule, mechanism key): a flooding known finding can never crowd out a
+        # different violation
+        if n <= MAX_STORED_PER_SIGNATURE:
             self.violations.append(
                 {
                     "rule": rule,
@@ -191,6 +194,7 @@ class Ctx:
             "samples": self.samples,
             "violations": self.violations,
             "n_violations": self.n_violations,
+            "sig_counts": self.sig_counts,
         }
 
 
@@ -279,6 +283,7 @@ def merge(results: list) -> dict:
         "samples": [],
         "violations": [],
         "n_violations": 0,
+        "sig_counts": {},
         "attach": {},
         "crashed": [],
         "wall_s": 0.0,
@@ -294,6 +299,8 @@ def merge(results: list) -> dict:
             m["samples"].extend(r["samples"][: 3 - len(m["samples"])])
         m["violations"].extend(r["violations"])
         m["n_violations"] += r["n_violations"]
+        for k, v in r.get("sig_counts", {}).items():
+            m["sig_counts"][k] = m["sig_counts"].get(k, 0) + v
         for k, v in r.get("attach", {}).items():
             if isinstance(v, (int, float)):
                 m["attach"][k] = m["attach"].get(k, 0) + v
@@ -423,12 +430,16 @@ def run_check(prop: str, tier: str, seed: int) -> int:
     known_hits = {}
     unlisted = []
     for v in m["violations"]:
-        if v.get("key") and v["key"] in known:
-            known_hits[v["key"]] = known_hits.get(v["key"], 0) + 1
-        else:
+        if not (v.get("key") and v["key"] in known):
             unlisted.append(v)
-    # violations beyond the stored cap: they are unlisted unless every stored one of that rule is known
-    n_unlisted = len(unlisted)
+    n_unlisted = 0
+    for (rule, key), n in m["sig_counts"].items():
+        if key and key in known:
+            known_hits[key] = known_hits.get(key, 0) + n
+        else:
+            n_unlisted += n
+    if n_unlisted and not unlisted:  # cannot happen (every signature stores its first witnesses)
+        reasons.append("violations counted but no witness stored")
 
     if not unlisted:
         if not reasons:
